@@ -19,7 +19,7 @@ def mc(leak, maxlen):
 def run(prop, replay=None):
     quick = vlib.tier() != "thorough"
     v = Verdict(prop, "model_checking")
-    v.rule = ("case = (operator class of 11, key type of 3, stream of 10 (thorough 13) events over up to 3 keys + missing key); "
+    v.rule = ("case = (operator class of 16, key type of 3, stream of 10 (thorough 13) events over up to 3 keys + missing key); "
               "non-trivial = at least two partitions and the per-key runs emit something; distinct by hash")
     v.assumptions = ["reference = the same real engine run separately on each key's sub-sequence (the property is stated that way)",
                      "string keys avoid the placeholders '' and 'default'"]
@@ -42,7 +42,7 @@ def run(prop, replay=None):
     if r.error:
         raise vlib.ToolError("PartGen: " + r.error)
     cases = extract_cases(r.stdout)
-    if len({c["cls"] for c in cases}) < 11:
+    if len({c["cls"] for c in cases}) < 16:
         raise vlib.ToolError("PartGen: not every class generated")
     v.add_tlc(r, "PartGen: %d cases" % len(cases))
     cpath, rpath = os.path.join(w, "cases.ndjson"), os.path.join(w, "report.json")
